@@ -701,6 +701,9 @@ class Bed:
                 cl["exc"] = type(e).__name__
                 cl["exc_text"] = str(e)[:300]
             cl["elapsed"] = self.loop.time() - t0
+            # the client's decision, taken when the response was complete (before the peer's close can arrive)
+            cl["pooled0"] = bool(conns) and any(p.transport is conns[0][0] and p.is_connected()
+                                                for dq in connector._conns.values() for (p, _t) in dq)
             cl["quiet"] = await self._quiesce(conns)
             cl["c2s_len"] = len(conns[0][0].total) if conns else 0
             cl["s2c_len"] = len(conns[0][1].total) if conns else 0
@@ -992,6 +995,9 @@ def oracle(case, out):
     if c_open != s_open or (not c_open and not ka["client_transport_closed"]):
         bad.append(("keepalive-disagree", f"after the exchange: client reusable={c_open} "
                                           f"(transport closed={ka['client_transport_closed']}), server open={s_open}"))
+    if cl.get("pooled0") and not s_open:
+        bad.append(("keepalive-disagree", "the client put the connection back into its pool as reusable, the server closed it "
+                                          "after the same exchange"))
     if wants_close(case) and (c_open or s_open):
         bad.append(("close-ignored", f"a close was requested but the connection stayed open (client={c_open}, server={s_open})"))
     if plain_keepalive(case) and not expect and not (c_open and s_open):
